@@ -198,7 +198,7 @@ func TestC03_Edits(t *testing.T) {
 	})
 }
 
-var hostile = []string{"", " ", "   ", "(", ")", "()", "( )", "((", "))", "MIT WITH", "MIT WITH ", "DocumentRef-a", "DocumentRef-a:", "DocumentRef-a: ",
+var hostile = []string{"MIT WITH DocumentRef-a:", "MIT WITH DocumentRef-a", "MIT WITH LicenseRef-a", "MIT ISC WITH", "MIT GPL-2.0+ WITH", "MIT and", "MIT or", "GPL-2.0 with", "and", "MIT Classpath-exception-2.0", "", " ", "   ", "(", ")", "()", "( )", "((", "))", "MIT WITH", "MIT WITH ", "DocumentRef-a", "DocumentRef-a:", "DocumentRef-a: ",
 	"DocumentRef-", "LicenseRef-", "MIT AND (", "MIT AND", "MIT OR", "AND", "OR", "WITH", "+", "++", " +", ":", "-or-later", "-only", "MIT+", "MIT++",
 	"MIT +", "MIT-or-later", "(MIT-or-later)", "MIT-or-later)", "MIT-or-later+", "GPL-2.0++", "\x00", "MIT\x00", "\xff\xfe", "MIT\tAND\tISC",
 	"MIT\nAND ISC", "é", "MIT AND é", "LicenseRef-é", "ＭＩＴ", "MIT AND ISC OR", "(MIT", "MIT)", "(MIT))", "((MIT)", "MIT ISC", "MIT (ISC)",
